@@ -238,7 +238,7 @@ func main() {
 	if mtotal.count["health_class_mismatch"] > 0 {
 		c.Inconclusive("the stub raft status was not classified as the harness intended (health vector mismatch)")
 	}
-	c.Set("removed_block_lookup_rule", "GetRaftEntryOfBlock(hash of a block whose entry was overwritten/cleared) must be an error or an entry that does not carry that block; observed outcomes are counted in wal_removed_block_lookup_*")
+	c.Set("removed_block_lookup_rule", "GetRaftEntryOfBlock(hash of a block whose entry was overwritten/cleared) must be an error (absent); observed outcomes are counted in wal_removed_block_lookup_*")
 
 	c.Finish("every restart after every op reproduces the reference log (entries, absent indices, last index, inverse map, blocks, hard state, snapshot, identity, ReadAll); every crash state inside an append is old-or-new; every membership request decided per the rule table",
 		c.Pick(5000, 50000),
